@@ -261,6 +261,22 @@ func (f *Font) makeTemplateData(opt *WriterOptions) *fontInfo {
 	if f.Private.StdVW != 0 {
 		info.StdVW = []float64{f.Private.StdVW}
 	}
+	if !info.CreationDate.IsZero() {
+		// The header gives the zone as hours and minutes plus a name.  If
+		// this does not read back as the same instant (zone names which
+		// are not abbreviations, offsets with seconds), use a zone which
+		// the header can represent.
+		const layout = "2006-01-02 15:04:05 -0700 MST"
+		t, err := time.Parse(layout, info.CreationDate.Format(layout))
+		if err != nil || !t.Equal(info.CreationDate.Truncate(time.Second)) {
+			_, offset := info.CreationDate.Zone()
+			if offset%60 == 0 {
+				info.CreationDate = info.CreationDate.In(time.FixedZone("", offset))
+			} else {
+				info.CreationDate = info.CreationDate.UTC()
+			}
+		}
+	}
 	return info
 }
 
